@@ -259,8 +259,8 @@ func (mr *memRepo) IndexInsert(desc types.Descriptor, opts ...types.IndexOpt) er
 	mr.mu.Lock()
 	mr.timeMod = time.Now()
 	mr.index.AddDesc(desc, opts...)
-	mr.mu.Unlock()
 	mr.log.Debug("index entry added", "repo", mr.path, "desc", desc)
+	mr.mu.Unlock()
 	return nil
 }
 
@@ -272,8 +272,8 @@ func (mr *memRepo) IndexRemove(desc types.Descriptor) error {
 	mr.mu.Lock()
 	mr.timeMod = time.Now()
 	mr.index.RmDesc(desc)
-	mr.mu.Unlock()
 	mr.log.Debug("index entry removed", "repo", mr.path, "desc", desc)
+	mr.mu.Unlock()
 	return nil
 }
 
